@@ -304,7 +304,15 @@ def run_case(c: Dict[str, Any]) -> Outcome:
         r = r_early or Receiver(b, executor=Inline(), validate_params=validate, max_async_tasks=5, run_startup=False)
         k = AsyncKicker("t", b, {"lbl": 1, "s": "x"}).with_task_id("T")
         m = k._prepare_message(*args, **kwargs)
-        back = b.formatter.loads(b.formatter.dumps(m).message)
+        wire = b.formatter.dumps(m).message
+        first = b.formatter.loads(wire)
+        for v in list(first.args) + list(first.kwargs.values()):
+            # what a task function may do to the list / dict it received (an earlier delivery of the same bytes was processed already)
+            if isinstance(v, list):
+                v.append("changed-by-first-recipient")
+            elif isinstance(v, dict):
+                v["changed-by-first-recipient"] = 1
+        back = b.formatter.loads(wire)          # decoding the same bytes again still yields the message that was sent
         await k.kiq(*args, **kwargs)
         try:
             await r.callback(b.q.pop(0).message)
